@@ -17,6 +17,10 @@
 (*                  cells whose background is in nosyn (painted with a style without         *)
 (*                  'syntax'); strict = TRUE: no difference at all (file renamed to another    *)
 (*                  name of the same kind)                                                   *)
+(*   kind "fgwhere" C15: x = rendering under a theme, y = under theme none, z = mask (1 where a third run, in which the   *)
+(*                  style under test carries a marker attribute, shows that marker): characters, backgrounds and        *)
+(*                  attributes equal everywhere; where the mask is set (text painted with a style that does not ask     *)
+(*                  for 'syntax') the foreground is equal too                                                            *)
 (*   kind "cells"   C08 moved lines: the rendition of every character of the output row   *)
 (*                  (y: <<char, fg, bg, attrs>>) equals that of the input line (x)         *)
 EXTENDS Naturals, Sequences, FiniteSets, TLC, Json, IOUtils
@@ -39,6 +43,12 @@ Judge(e) ==
          ELSE LET bad == {i \in DOMAIN e.x :
                             \/ e.x[i][1] # e.y[i][1] \/ e.x[i][3] # e.y[i][3] \/ e.x[i][4] # e.y[i][4]
                             \/ (e.x[i][2] # e.y[i][2] /\ (e.strict \/ \E k \in DOMAIN e.nosyn : e.nosyn[k] = e.x[i][3]))}
+              IN IF bad = {} THEN 0 ELSE CHOOSE i \in bad : \A j \in bad : i <= j
+    [] e.kind = "fgwhere" ->
+         IF Len(e.x) # Len(e.y) \/ Len(e.x) # Len(e.z) THEN (IF Len(e.x) < Len(e.y) THEN Len(e.x) ELSE Len(e.y)) + 1
+         ELSE LET bad == {i \in DOMAIN e.x :
+                            \/ e.x[i][1] # e.y[i][1] \/ e.x[i][3] # e.y[i][3] \/ e.x[i][4] # e.y[i][4]
+                            \/ (e.z[i] = 1 /\ e.x[i][2] # e.y[i][2])}
               IN IF bad = {} THEN 0 ELSE CHOOSE i \in bad : \A j \in bad : i <= j
     [] e.kind = "equalp" ->
          IF Len(e.x) # Len(e.y) THEN (IF Len(e.x) < Len(e.y) THEN Len(e.x) ELSE Len(e.y)) + 1
